@@ -23,7 +23,8 @@ EXPLANATION = (
     "protected.add(<target>), and the target of a marker whose payload names a path is that path."
     " R1 requires the hook that runs to be the writer's OWN pre_write_hook parameter (a helper's defaulted None does not count)."
     " (R8) who-may-delete census (C09.R3); (R9) the collector's metadata read is never served from a cache (C10.R7); (R10) census of data-file production sites: marker registered first, failure propagates, one uuid per loop iteration."
-    ' (R11) a file that vanished between queueing and commit fails the commit: commit-time validate_data_files dominates the manifest (shared with C11.R8).')
+    ' (R11) a file that vanished between queueing and commit fails the commit: commit-time validate_data_files dominates the manifest (shared with C11.R8).'
+    " (R15) retry discipline incl. 'not found stays retryable' (C20.R3): a fresh marker that briefly reads as missing is not taken for a finished transaction; (R16) the abandonment window is the design constant (C05.R18).")
 NOT_DECIDED = "grace-period arithmetic versus run duration; the interleavings themselves"
 
 GC = "garbage_collector.GarbageCollector"
@@ -59,6 +60,14 @@ def check(ctx: Ctx) -> None:
     # an ambiguous commit keeps its files AND their markers: the pointer write may still land
     from .c04 import r3 as c04_r3
     ctx.shared(c04_r3, "C04.R3", "C06.R14", "nothing of an ambiguous commit is deleted or un-protected")
+    # the collector reads "marker not found" as "its transaction finished": on S3 a just-written marker can briefly read as
+    # missing, so a not-found answer must stay retryable (it is an answer only after the retry budget), and the retry layer's
+    # budget / classification is what keeps a live transaction's marker readable
+    from .c20 import r3 as c20_r3
+    ctx.shared(c20_r3, "C20.R3", "C06.R15", "a marker that briefly reads as missing is retried, not taken for a finished transaction")
+    # the abandonment window that strips a live transaction's markers is the design constant, never derived
+    from .c05 import abandonment_window_not_derived
+    abandonment_window_not_derived(ctx, "C06.R16")
 
 
 def data_writes_protected(ctx: Ctx, rid: str) -> None:
